@@ -21,6 +21,8 @@ pub mod thread {
     //! yield_now, current, park, scope, ...)
     // (not a glob: shuttle::thread also exports `Result`, which would shadow the prelude's)
     pub use shuttle::thread::{current, park, park_timeout, sleep, spawn, yield_now, Builder, JoinHandle, Thread, ThreadId};
+    // harmless pass-throughs (no scheduling relevance)
+    pub use std::thread::{available_parallelism, panicking};
 
     // `scope` is NOT re-exported from shuttle: shuttle 0.9.3 unblocks the scope's main task
     // unconditionally when the last scoped thread ends, so a main task that is blocked on a
